@@ -150,5 +150,5 @@ def campaigns(tier):
     th = tier == "thorough"
     return [
         Campaign("futures_sim", "hyp", execute=execute, strategy=lambda: PS.strategy("futures"),
-                 examples=40000 if th else 1800, setup=PS.setup, max_wall=900 if th else 100, shrink_wall=40),
+                 examples=40000 if th else 4000, setup=PS.setup, max_wall=900 if th else 100, shrink_wall=40),
     ]
